@@ -231,7 +231,7 @@ func init() {
 		tx := ex.opaqueOf(args[0], "sql.Tx").data.(*sqlTx)
 		w := ex.W
 		if tx.done {
-			return ex.opaqueErr("sql: transaction has already been committed or rolled back")
+			return ex.P.errTxDone()
 		}
 		tx.done = true
 		if ex.sqlFault("Commit") {
@@ -246,7 +246,7 @@ func init() {
 		tx := ex.opaqueOf(args[0], "sql.Tx").data.(*sqlTx)
 		w := ex.W
 		if tx.done {
-			return ex.opaqueErr("sql: transaction has already been committed or rolled back")
+			return ex.P.errTxDone()
 		}
 		tx.done = true
 		w.db = tx.snap
